@@ -53,6 +53,9 @@ type Parser struct {
 	// escTimeout is a timeout for interpretting an Esc keypress vs an
 	// escape sequence
 	escTimeout *time.Timer
+	// noEscKey is set when nobody types the input (see NewTextParser): an
+	// ESC is never a key press and no timeout is started for it
+	noEscKey bool
 	// escPending is true while the last character handled was an ESC
 	// which has not been reported as an Escape key press; escGen tells
 	// the timer callbacks of successive ESCs apart. Both are guarded by mu
@@ -73,7 +76,21 @@ type Parser struct {
 }
 
 func NewParser(r io.Reader) *Parser {
+	return newParser(r, false)
+}
+
+// NewTextParser returns a Parser for input that nobody types: a string in
+// memory, a file, a recording. Every ESC begins an escape sequence, however
+// long the parser takes to get at the character after it; a Parser made by
+// NewParser reports an ESC which nothing has followed within 10ms as the
+// Escape key, so what it makes of the same bytes depends on their timing.
+func NewTextParser(r io.Reader) *Parser {
+	return newParser(r, true)
+}
+
+func newParser(r io.Reader, noEscKey bool) *Parser {
 	parser := &Parser{
+		noEscKey:         noEscKey,
 		close:            make(chan bool, 1),
 		closed:           make(chan bool, 1),
 		r:                bufio.NewReader(r),
@@ -562,6 +579,9 @@ func anywhere(r rune, p *Parser) stateFn {
 		// only the ESC that ends a string can be the start of its ST
 		p.skipST = p.ignoreST
 		p.ignoreST = false
+		if p.noEscKey {
+			return escape
+		}
 		p.escPending = true
 		p.escGen += 1
 		gen := p.escGen
